@@ -33,6 +33,17 @@ pub fn add_base_cells(ws: &mut Worksheet, salt: &str) {
     ws.get_cell_mut("D2").set_formula("B1+C2");
     ws.get_cell_mut("A3").set_value_string(" padded ");
     ws.get_cell_mut("D1").set_value("#N/A"); // error literal
+    // a plain and a rich string with the same display text (interning must keep them apart)
+    ws.get_cell_mut("A4").set_value_string("Total");
+    let mut rt = RichText::default();
+    let mut e1 = TextElement::default();
+    e1.set_text("To");
+    e1.get_run_properties_mut().set_bold(true);
+    let mut e2 = TextElement::default();
+    e2.set_text("tal");
+    rt.add_rich_text_elements(e1);
+    rt.add_rich_text_elements(e2);
+    ws.get_cell_mut("B4").set_rich_text(rt);
 }
 
 pub fn add_styles(ws: &mut Worksheet) {
